@@ -221,6 +221,41 @@ impl Pattern {
             .is_match(path.to_string_lossy().as_ref())
     }
 
+    /// Converts the characters given between `[` and `]` in a glob to the contents of a regex
+    /// character class matching the same characters. Besides ranges, a regex gives a meaning
+    /// to more characters there than a glob does: `[`, `&&`, `~~`, `--`, `^`, `\d` etc.
+    fn escape_character_set(characters: &[char]) -> String {
+        let mut result = String::new();
+        let mut i = 0;
+        while i < characters.len() {
+            let c = characters[i];
+            match c {
+                // `\x` stands for x
+                '\\' if i + 1 < characters.len() => {
+                    i += 1;
+                    let escaped = characters[i];
+                    if !escaped.is_alphanumeric() {
+                        result.push('\\');
+                    }
+                    result.push(escaped);
+                }
+                '\\' | '[' | '&' | '~' | '^' => {
+                    result.push('\\');
+                    result.push(c);
+                }
+                // `--` would subtract a character class in a regex
+                '-' if (i > 0 && characters[i - 1] == '-')
+                    || (i + 1 < characters.len() && characters[i + 1] == '-') =>
+                {
+                    result.push_str("\\-");
+                }
+                _ => result.push(c),
+            }
+            i += 1;
+        }
+        result
+    }
+
     /// Parses a UNIX glob and converts it to a regular expression
     fn glob_to_regex(scope: Scope, glob: &str) -> IResult<&str, String> {
         // pass escaped characters as-is:
@@ -285,17 +320,13 @@ impl Pattern {
         // [ characters ] -> [ characters ]
         let p_neg_character_set = map(
             tuple((tag("[!"), many0(none_of("]")), tag("]"))),
-            |(_, characters, _)| {
-                "[^".to_string() + &characters.into_iter().collect::<String>() + "]"
-            },
+            |(_, characters, _)| "[^".to_string() + &Self::escape_character_set(&characters) + "]",
         );
 
         // [ characters ] -> [ characters ]
         let p_character_set = map(
             tuple((tag("["), many0(none_of("]")), tag("]"))),
-            |(_, characters, _)| {
-                "[".to_string() + &characters.into_iter().collect::<String>() + "]"
-            },
+            |(_, characters, _)| "[".to_string() + &Self::escape_character_set(&characters) + "]",
         );
 
         let p_separator = map(tag("/"), |_| escaped_sep.clone());
